@@ -121,6 +121,13 @@ func (ex *Exec) callStatic(st *PState, fn *ssa.Function, args []Value, bindings 
 		}
 	}
 	full := funcFullName(fn)
+	if target, ok := ex.cfg.Stubs[full]; ok {
+		tf := ex.harnessPkg.Func(target)
+		if tf == nil {
+			fail("stub target %s not found in harness package", target)
+		}
+		return ex.callStatic(st, tf, args, nil)
+	}
 	if v, ok := ex.stdStub(st, fn, full, args); ok {
 		return v
 	}
@@ -232,6 +239,9 @@ func (ex *Exec) verifIntrinsic(st *PState, fn *ssa.Function, base string, args [
 	case "verifAny":
 		rt := fn.Signature.Results().At(0).Type()
 		return ex.freshValue(ex.uniq(constString(args[0])), rt), true
+	case "verifIntRange":
+		lo, hi := ex.constIntArg(args[1]), ex.constIntArg(args[2])
+		return ex.newVar(ex.uniq(constString(args[0])), SInt, bi(lo), bi(hi)), true
 	case "verifBytes":
 		name := ex.uniq(constString(args[0]))
 		n := ex.constIntArg(args[1])
@@ -257,8 +267,8 @@ func (ex *Exec) verifIntrinsic(st *PState, fn *ssa.Function, base string, args [
 		o := ex.alloc(st, name, types.NewArray(et, maxc), arr)
 		ex.assume(ts.Implies(st.g, ts.And(ts.Le(ts.Int64(0), ln), ts.Le(ln, cp), ts.Le(cp, ts.Int64(maxc)))))
 		return &SliceV{Obj: o, Off: ts.Int64(0), Len: ln, Cap: cp}, true
-	case "verifUF":
-		// verifUF(name string, lo, hi uint64-ish consts?, args ...uint64) uint64
+	case "verifUF", "verifUF8", "verifUF32":
+		// verifUF*(name string, args ...uint64) T : uninterpreted function, range = range of T
 		name := constString(args[0])
 		sl := args[1].(*SliceV)
 		n := ex.constIntArg(sl.Len)
